@@ -918,7 +918,23 @@ func (e *Enc) funDef(fd *FunDef) *funInfo {
 		aref = append(aref, q("f!"+n))
 	}
 	bt := strings.ReplaceAll(body.S, arrsPlaceholder, strings.Join(aref, " "))
-	e.decls = append(e.decls, fmt.Sprintf("(define-fun-rec %s (%s) %s %s)", fi.name, strings.Join(append(adecl, pdecl...), " "), srt, bt))
+	def := fmt.Sprintf("(define-fun-rec %s (%s) %s %s)", fi.name, strings.Join(append(adecl, pdecl...), " "), srt, bt)
+	e.decls = append(e.decls, def)
+	// the same symbol without its definition (for queries whose goal does not mention it: the recursive definition
+	// only distracts the solvers there; the proved lemma instances stay available as plain assumptions)
+	var sorts []string
+	for _, n := range fh.formal.order {
+		sorts = append(sorts, fh.formal.used[n])
+	}
+	for _, p := range fd.Params {
+		for _, c := range flatten(e.P.parseType(fd.Pkg, p.Type)) {
+			sorts = append(sorts, c.Sort)
+		}
+	}
+	if e.opaqueFun == nil {
+		e.opaqueFun = map[string][2]string{}
+	}
+	e.opaqueFun[def] = [2]string{fi.name, fmt.Sprintf("(declare-fun %s (%s) %s)", fi.name, strings.Join(sorts, " "), srt)}
 	return fi
 }
 
@@ -1006,7 +1022,16 @@ func (c *SpecCtx) instantiateLemmas(fd *FunDef, args []Val, ats []string) {
 		}
 		lc := &SpecCtx{e: e, names: names, heap: h, old: old, pkg: ld.Pkg, noLemma: true}
 		fact := lc.evalBool(ld.Body)
+		n0 := len(e.lines)
 		e.assume("true", fact)
+		if len(e.lines) == n0+1 {
+			// remember which recursive function this instance is about: queries whose goal does not mention the
+			// function leave the instance out on their first attempt
+			if e.lemmaLine == nil {
+				e.lemmaLine = map[int]string{}
+			}
+			e.lemmaLine[n0] = e.funDef(fd).name
+		}
 		e.lemmaSeen[key] = len(e.lines)
 		e.usedLemmas[ld.Pkg+"."+ld.Name] = true
 	}
